@@ -68,15 +68,21 @@ impl WalPathManager {
                 Err(e) => return Err(e),
             }
         };
+        #[cfg(walrus_verif)]
+        crate::wal::verif_hooks::trace(|| format!("create {}", path.to_string_lossy()));
         f.set_len(MAX_FILE_SIZE)?;
 
         // Sync file metadata (size, etc.) to disk
         f.sync_all()?;
+        #[cfg(walrus_verif)]
+        crate::wal::verif_hooks::trace(|| format!("syncfile {}", path.to_string_lossy()));
 
         // CRITICAL for Linux: Sync parent directory to ensure directory entry is durable
         // Without this, the file might exist but not be visible in directory listing after crash
         let dir = std::fs::File::open(&self.root)?;
         dir.sync_all()?;
+        #[cfg(walrus_verif)]
+        crate::wal::verif_hooks::trace(|| "syncdir".to_string());
 
         Ok(path.to_string_lossy().into_owned())
     }
